@@ -927,6 +927,8 @@ func (handler *Handler) QueryResponseHandler(ctx context.Context, packet *Packet
 
 	// proxy output
 	handler.logger.Debugln("Proxy output")
+	// the response handler was reset to default at the beginning; it must not be touched after the last packet
+	// is written: the client may already have sent its next command, whose handler is set by the client side goroutine
 	for _, dumper := range output {
 		if _, err := clientConnection.Write(dumper.Dump()); err != nil {
 			handler.logger.WithError(err).WithField(logging.FieldKeyEventCode, logging.EventCodeErrorNetworkWrite).
@@ -934,7 +936,6 @@ func (handler *Handler) QueryResponseHandler(ctx context.Context, packet *Packet
 			return err
 		}
 	}
-	handler.resetQueryHandler()
 	handler.logger.Debugln("Query handler finish")
 	return nil
 }
@@ -964,20 +965,22 @@ func (handler *Handler) PreparedStatementResponseHandler(ctx context.Context, pa
 	}
 	handler.registry.AddStatement(NewPreparedStatementItem(preparedStmt, querySelectSettings))
 
-	// proxy output
-	handler.logger.Debugln("PreparedStatementResponseHandler.Proxy output")
-	if _, err := clientConnection.Write(packet.Dump()); err != nil {
-		handler.logger.WithError(err).WithField(logging.FieldKeyEventCode, logging.EventCodeErrorNetworkWrite).
-			Debugln("Can't proxy output")
-		return err
-	}
-
+	// choose the handler of the next database packet before the client sees this one: once it is written the client
+	// may send its next command, whose handler is set by the client side goroutine and must not be overwritten here
 	handler.resetQueryHandler()
 	// if prams_num > 0 params definition block will follow
 	// https://dev.mysql.com/doc/internals/en/com-stmt-prepare-response.html
 	if response.ParamsNum > 0 {
 		fieldTracker := NewPreparedStatementFieldTracker(handler, response.ColumnsNum)
 		handler.setQueryHandler(fieldTracker.ParamsTrackHandler)
+	}
+
+	// proxy output
+	handler.logger.Debugln("PreparedStatementResponseHandler.Proxy output")
+	if _, err := clientConnection.Write(packet.Dump()); err != nil {
+		handler.logger.WithError(err).WithField(logging.FieldKeyEventCode, logging.EventCodeErrorNetworkWrite).
+			Debugln("Can't proxy output")
+		return err
 	}
 	handler.logger.Debugln("Prepared Statement registered successfully")
 	return nil
